@@ -5,7 +5,7 @@ from ..core import Run, ToolError
 from . import c02
 
 TIERS = {"quick": dict(maxalts=4, per_set=8, sim=dict(num=60, workers=4, maxnodes=30, minnodes=12)),
-         "thorough": dict(maxalts=5, per_set=240, sim=dict(num=400, workers=16, maxnodes=45, minnodes=16))}
+         "thorough": dict(maxalts=5, per_set=240, sim=dict(num=30, workers=8, maxnodes=40, minnodes=14))}
 
 
 def trace_cfg(run):
